@@ -6,7 +6,7 @@ use crate::spec::{Model, RetTy};
 use crate::tape::Tape;
 
 /// One representative per lexical class the grammar distinguishes.
-pub const ALPHABET: &[u8] = b"AEH*:;, \n?#12'\".e+";
+pub const ALPHABET: &[u8] = b"AEH*:;, \n?#012'\".e+";
 
 pub const GARBAGE: &[&[u8]] = &[
     b"'", b"\"", b"#19", b"#1", b"#", b"\xff", b"\x80\x80", b"@", b"::", b";;", b",", b"?", b"*", b"#H", b"#Q8",
@@ -18,6 +18,10 @@ pub const GARBAGE: &[&[u8]] = &[
     b"A 255", b"A 256", b"A -1", b"A 1.", b"A .5", b"A 7.", b"A 1e1", b"A #HFFFFFFFFFFFFFFFFFF", b"A #B11111111", b"A #Q377",
     b"A +0000000000000000000001", b"H:A 1e400", b"H:A -1e-400", b"H:A 4.9e-324", b"H:A 1.7976931348623159e308", b"H:A -.0e-0",
     b"H:A 1.", b"H:A 00000000000000000000000000000000000000001e-9999999999", b"H:A 9e999999999999999999999",
+    // very long mnemonics (beyond any fixed-size scratch buffer)
+    b"AAAAAAAAAAAAAAAAAAAAAAAAAAAAAAAAAAAAAAAAAAAAAAAAAAAAAAAAAAAAAAAAAAAAAAAAAAAAAAAAAAAAAAAAAAAAAAAAAAAAAAAA 1",
+    b"H:EEEEEEEEEEEEEEEEEEEEEEEEEEEEEEEEEEEEEEEEEEEEEEEEEEEEEEEEEEEEEEEEEEEEEEEEE?", b"*HHHHHHHHHHHHHHHHHHHHHHHHHHHHHHHHHHHHHHHHHHH?",
+    b"E MAXIMUMMAXIMUMMAXIMUMMAXIMUMMAXIMUMMAXIMUMMAXIMUMMAXIMUMMAXIMUMMAXIMUM", b"H:H #3300",
     b"E:E? 255", b"E:E? 00", b"E 2", b"E ONN", b"H:H #10", b"H:H #9000000000", b"H:H #200", b"H:E ''", b"H:E \"\"",
 ];
 
@@ -82,7 +86,7 @@ pub fn gen_rval(t: &mut Tape, r: &RetTy) -> RVal {
         }
         RetTy::Str | RetTy::SString => {
             let n = t.below(40);
-            RVal::Str((0..n).map(|_| b"ab\"c,; '"[t.below(8)] as char).collect())
+            RVal::Str((0..n).map(|_| ['a', 'b', '"', 'c', ',', ';', ' ', '\'', '\u{e9}', '\u{20ac}', '\u{1f600}'][t.below(11)]).collect())
         }
         RetTy::Arb => {
             let n = [0usize, 1, 9, 10, 11, 60, 99, 100, 101][t.below(9)];
